@@ -19,6 +19,7 @@ import (
 	"net"
 	"strings"
 	"sync"
+	"sync/atomic"
 	"testing"
 	"time"
 
@@ -50,6 +51,7 @@ type c05E2ECase struct {
 	stack   string   // the wrapper handleConn must build: plain | buf | pre | snf
 	held    int      // how many bytes of seg1 that wrapper holds
 	bodyLen int      // observed by relayGatherWriteTestHook
+	upEarly bool     // the upstream sends its data at once, while the client is still sending (both directions busy)
 }
 
 func c05HexChunks(cs [][]byte) string {
@@ -84,10 +86,11 @@ func (c *c05E2ECase) ops() (string, string) {
 func c05RunE2E(t *testing.T, cp *ControlPlane, ud *c05Dialer, c *c05E2ECase) (string, string) {
 	upLn, err := net.Listen("tcp", "127.0.0.1:0")
 	if err != nil {
-		t.Fatal(err)
+		t.Fatalf("C05 needs a working loopback interface (cannot listen on 127.0.0.1): %v", err)
 	}
 	defer upLn.Close()
 	var upGot []byte
+	var stalled atomic.Bool
 	var wg sync.WaitGroup
 	wg.Add(1)
 	go func() {
@@ -97,12 +100,31 @@ func c05RunE2E(t *testing.T, cp *ControlPlane, ud *c05Dialer, c *c05E2ECase) (st
 			return
 		}
 		defer uc.Close()
-		_ = uc.SetDeadline(time.Now().Add(60 * time.Second))
-		upGot, _ = io.ReadAll(uc) // until the client's half-close has been passed on
-		for _, d := range c.upData {
-			_, _ = uc.Write(d)
+		_ = uc.SetDeadline(time.Now().Add(3 * time.Minute))
+		var wdone sync.WaitGroup
+		if c.upEarly {
+			wdone.Add(1)
+			go func() {
+				defer wdone.Done()
+				for _, d := range c.upData {
+					_, _ = uc.Write(d)
+				}
+			}()
 		}
+		upGot, _ = io.ReadAll(uc) // until the client's half-close has been passed on
+		sawEOF := time.Now()
+		if !c.upEarly {
+			for _, d := range c.upData {
+				_, _ = uc.Write(d)
+			}
+		}
+		wdone.Wait()
 		_ = uc.(*net.TCPConn).CloseWrite()
+		// the relay's 10 s grace period (real seconds here) started when it read the client's FIN: if this
+		// process was stalled for seconds in between, the answer may have been cut — not the code's fault
+		if time.Since(sawEOF) > 4*time.Second {
+			stalled.Store(true)
+		}
 	}()
 	client, accepted := c05TCPPair(t)
 	defer client.Close()
@@ -192,6 +214,9 @@ func c05RunE2E(t *testing.T, cp *ControlPlane, ud *c05Dialer, c *c05E2ECase) (st
 		return "harness:no-dial", ""
 	}
 	wg.Wait()
+	if stalled.Load() {
+		return "harness:process-stalled-for-seconds", ""
+	}
 	return fmt.Sprintf("out=%s ok=%s", c05Digest(upGot), c05B(herr == nil)),
 		fmt.Sprintf("out=%s ok=1", c05Digest(clGot))
 }
@@ -251,6 +276,10 @@ func c05GenE2E(r *VRand, stats *VStats) *c05E2ECase {
 	}
 	for i, n := 0, r.Intn(3); i < n; i++ {
 		c.upData = append(c.upData, tail([]int{1, 700, 40000}[r.Intn(3)]+r.Intn(20)))
+	}
+	if len(c.upData) > 0 && r.Bool() {
+		c.upEarly = true
+		stats.Inc("e2e.both-directions-busy")
 	}
 	stats.Inc("e2e." + c.kind)
 	return c
